@@ -11,6 +11,7 @@ from __future__ import annotations
 import base64
 import copy
 import os
+import time
 
 from . import docs, fsmodel, seam
 from .common import drive, run_cli, sha_bytes, sha_text
@@ -994,11 +995,23 @@ def _sweep(unit, stats, viols):
         skip = set(mid) - keep
         stats.inc("sweep_write_points_sampled_out", len(skip))
     part, parts = unit.get("part", 0), unit.get("parts", 1)
-    for k, name in ops:
+    # a unit is a few seconds to a few minutes of work; scenarios with 100 KB+ documents would take hours in the pair sweep.
+    # Budgeted units visit the operations in a spread order (not first-to-last) and stop when the budget is used up; how many
+    # units that happened to is part of the evidence (sweep_units_truncated_by_budget).  Verdicts per run are unaffected.
+    budget = float(os.environ.get("VERIF_SWEEP_BUDGET", "240" if unit.get("pairs") else "420"))
+    t_start = time.time()
+    order = list(ops)
+    if len(_dec(case0["scenario"].get("initial_data")) or b"") + len(case0["scenario"].get("new_text") or "") > 50_000:
+        order.sort(key=lambda kn: ((kn[0] * 7919) % 9973, kn[0]))
+    truncated = False
+    for k, name in order:
         if k in skip:
             continue
         if unit.get("pairs") and k % parts != part:
             continue
+        if time.time() - t_start > budget:
+            truncated = True
+            break
         plans = [{"kind": c} for c in CRASHES]
         for en in seam.admissible(name):
             plans.append({"kind": "errno", "errno": en})
@@ -1016,12 +1029,18 @@ def _sweep(unit, stats, viols):
             # pair sweep: second fault anywhere in what the first fault left to run
             tail = [(i, n) for i, n in res["ops0"] if i > k]
             for k2, name2 in tail:
+                if time.time() - t_start > budget:
+                    truncated = True
+                    break
                 plans2 = [{"kind": "kill"}] + [{"kind": "errno", "errno": en} for en in seam.admissible(name2)]
                 for p2 in plans2:
                     case2 = dict(case0)
                     case2["faults"] = [f1, {"actor": 0, "at": k2, **p2}]
                     _run_and_collect(case2, stats, viols)
                     stats.inc("sweep_pair_runs")
+    stats.inc("sweep_units")
+    if truncated:
+        stats.inc("sweep_units_truncated_by_budget")
 
 
 ALL_ERRNOS = sorted({e for v in seam.CLASS_ERRNOS.values() for e in v})
@@ -1198,6 +1217,8 @@ def main(tier: str, seed: int, args) -> int:
                                                               "by_op": dict(stats.groups.get("xval_ops", {}))},
         "seam_fidelity_checks_passed": c.get("fidelity_checks_passed", 0),
         "sweep_scenarios": c.get("sweep_scenarios", 0),
+        "sweep_units": c.get("sweep_units", 0),
+        "sweep_units_truncated_by_budget": c.get("sweep_units_truncated_by_budget", 0),
         "sweep_single_fault_runs": c.get("sweep_single_runs", 0),
         "sweep_pair_runs": c.get("sweep_pair_runs", 0),
         "random_multi_fault_runs": runs - c.get("sweep_single_runs", 0) - c.get("sweep_pair_runs", 0) - c.get("sweep_scenarios", 0),
